@@ -218,7 +218,15 @@ func (w *world) forgeCertificates(pr *proposal, vs lib.ValidatorSet, honest *lib
 		if kind == 6 && t.Chance(1, 3) {
 			// the honest block bytes followed by a second header field: raw-byte hashing sees the first,
 			// protobuf decoding merges both
-			if hdr, e := lib.Marshal(alt.blk.BlockHeader); e == nil {
+			// (the second header must set a field to a non-default value that differs from the first: a header whose
+			// only differences are zero-valued fields encodes as a subset and merges back into the certified header)
+			h2 := new(lib.BlockHeader)
+			if bz0, e0 := lib.Marshal(pr.block.BlockHeader); e0 != nil || lib.Unmarshal(bz0, h2) != nil {
+				return
+			}
+			h2.Time += 1 + uint64(t.Intn(1000))
+			h2.Hash = nil
+			if hdr, e := lib.Marshal(h2); e == nil {
 				q2 := cloneQC(honest)
 				q2.Block = append(append([]byte(nil), pr.blockBz...), append(binary.AppendUvarint([]byte{0x0A}, uint64(len(hdr))), hdr...)...)
 				add("second-header-appended-to-certified-block", q2)
